@@ -7,7 +7,7 @@ TARGETS = ['MindsVerif.Props.C10']
 THEOREMS = ['MindsVerif.Props.C10.' + n for n in (
     'C10_case_insensitive', 'C10_catalog_names_dicts', 'C10_catalog_case', 'C10_catalog_none',
     'C10_catalog_legacy_list', 'C10_resolvers', 'C10_resolvers_same', 'C10_regression_1', 'C10_regression_2',
-    'C10_old_resolver_partial', 'C10_witness_6', 'C10_partial_stripped', 'C10_stripped_exact', 'C10_partial_pushdown',
+    'C10_old_resolver_partial', 'C10_resolvers_catalog', 'C10_regression_6', 'C10_catalog_default_case', 'C10_partial_stripped', 'C10_stripped_exact', 'C10_partial_pushdown',
     'C10_witness_3', 'C10_pushdown_full_false', 'C10_witness_5', 'C10_stripped_full_false',
     'C10_model_version', 'C10_model_noversion', 'C10_model_step_simple', 'C10_model_case',
     'C10_model_join', 'C10_regression_4', 'C10_main')]
